@@ -118,7 +118,8 @@ func newWorld(opt stack.Options) (*world, error) {
 			w.vals[fmt.Sprintf("G%d:0", i+1)] = g
 			owner[fmt.Sprintf("G%d:0", i+1)] = "K"
 		}
-		outs = append(outs, stack.Out{To: w.keys["B"].Hash, Value: gcb.Outputs()[0].Value - 4*g - fee})
+		// the remainder goes to an address outside the model's address views
+		outs = append(outs, stack.Out{To: stack.KeyFromSeed(199).Hash, Value: gcb.Outputs()[0].Value - 4*g - fee})
 		fund, err := stack.Transfer([]common2.OutPoint{{TxID: gcb.Hash(), Index: 0}}, outs, []*stack.Key{w.keys["K"]}, 77)
 		if err != nil {
 			return nil, err
